@@ -204,6 +204,20 @@ func RunWorker(propID, tier, unitName, out, journal string, deadlineUnix int64, 
 		}
 	}
 	t0 := time.Now()
+	if p.StallS > 0 {
+		go func() {
+			last, since := c.Progress(), time.Now()
+			for {
+				time.Sleep(time.Second)
+				if now := c.Progress(); now != last {
+					last, since = now, time.Now()
+				} else if time.Since(since) > time.Duration(p.StallS)*time.Second {
+					fmt.Fprintf(os.Stderr, "watchdog: case #%d of unit %s made no progress for %d s (a call that does not return)\n", c.Progress(), unitName, p.StallS)
+					os.Exit(3)
+				}
+			}
+		}()
+	}
 	unit.Run(c)
 	r := c.Finish()
 	r.WallS = time.Since(t0).Seconds()
